@@ -39,7 +39,11 @@ def systematic():
                     vs.append(Variant("V%d" % n, "unit", [], ms))
             items.append(Item("E", vs, metas=[EM("aci")] if eflag else []))
     # pairs of spellings that are EQUAL under Unicode case mapping but DIFFERENT under ASCII folding must stay two variants
-    pairs = [("é", "É"), ("k", "\u212a"), ("s", "\u017f"), ("ss", "ß"), ("i", "\u0131"), ("I", "\u0130"), ("ǆ", "Ǆ"), ("σ", "ς"), ("ä-x", "Ä-X")]
+    pairs = [("é", "É"), ("k", "\u212a"), ("s", "\u017f"), ("ss", "ß"), ("i", "\u0131"), ("I", "\u0130"), ("ǆ", "Ǆ"), ("σ", "ς"), ("ä-x", "Ä-X"),
+             # ASCII bytes that differ in bit 5 only but are NOT letters: folding must not merge them
+             ("|", "\\"), ("~", "^"), ("`", "@"), ("user-name", "user\rname"), ("[x]", "{x}"), ("a_b", "a\x7fb"), ("1", "\x11"),
+             # different words whose 32-bit FNV-1a hashes coincide (a hash is not a key)
+             ("costarring", "liquid"), ("altarage", "zinke"), ("declinate", "macallums")]
     for eflag in (False, True):
         vs = []
         for j, (a, b) in enumerate(pairs):
